@@ -19,7 +19,7 @@ def step (cur : Option Stmt) (line : String) : Option Stmt × List String :=
   match line.trimAscii.toString.splitOn " " with
   | ["print"] => (cur, Ref.all.map (fun (n, p) => s!"K {n} {p.toSexp}") ++
       Covfie.Lin.Ref.all.map (fun (n, p) => s!"K {n} {p.toSexp}") ++
-      Covfie.RImp.Ref.all.map (fun (n, p) => s!"K {n} {p.toSexp}") ++
+      Covfie.RImp.Ref.all.map (fun (n, p) => s!"K {n} {Covfie.RImp.Ref.text n p}") ++
       Covfie.Heap.Ref.all.map (fun (n, t) => s!"K {n} {t}") ++
       Covfie.IO.Ref.all.map (fun (n, p) => s!"K {n} {p.toSexp}") ++
       Covfie.IO.BRef.all.map (fun (n, t) => s!"K {n} {t}"))
